@@ -329,7 +329,9 @@ class Ctx:
                 self.cov["known"] += 1
                 continue
             dig = hashlib.sha1(("\n".join(rej["chunk"])).encode()).hexdigest()[:12]
-            path = os.path.join(VERIF, "replays", "%s-%s.json" % (self.prop, dig))
+            rdir = os.path.join(VERIF, "replays") if os.path.realpath(REPO) == "/repo" else os.path.join(tempfile.gettempdir(), "verif-trial-replays")
+            os.makedirs(rdir, exist_ok=True)
+            path = os.path.join(rdir, "%s-%s.json" % (self.prop, dig))
             with open(path, "w") as f:
                 json.dump(dict(property=self.prop, signature=sig, what=text, rejected_at_event=rej["at"],
                                tier=self.tier, seed=self.seed, recording=rej["chunk"]), f)
